@@ -52,7 +52,7 @@ theorem handlers_order_independent {s0 : State} {evs evs' : List PodEv} (hg : Go
   have hown : ((evs.map (thr s0)).map (·.1)).Nodup := by rw [owners_thr]; exact hn
   have hown' : ((evs'.map (thr s0)).map (·.1)).Nodup := by rw [owners_thr]; exact hn'
   have := interleaving_figures_unique' (CI_of_good hg) hown hown'
-    (progOf_perm (hperm.map _) hown) (safe_thr hpre) (safe_thr hpre')
+    (progOf_perm (hperm.map _) hown) (safe_thr hg hpre) (safe_thr hg hpre')
     (psteps_seq _ s0) (finished_quiescent _) (psteps_seq _ s0) (finished_quiescent _)
   rw [show runThreads s0 (evs.map (thr s0)) = run s0 (evs.map PodEv.op) from hseq.symm,
     show runThreads s0 (evs'.map (thr s0)) = run s0 (evs'.map PodEv.op) from hseq'.symm] at this
